@@ -426,7 +426,7 @@ def main():
             if attr not in params or (attr == "method_to_combine_horizontals" and c != "HvsrTraditionalProcessingSettings"):
                 continue        # (the sub-classes fix the method; passing another one makes an object of a different kind)
             k_ += 1
-            if run.quick and attr not in ("azimuths_in_degrees", "azimuth_in_degrees", "ppth_percentile_for_rotdpp_computation") and (k_ + run.seed) % 3:
+            if run.quick and attr not in ("azimuths_in_degrees", "azimuth_in_degrees", "ppth_percentile_for_rotdpp_computation", "method_to_combine_horizontals") and (k_ + run.seed) % 3:
                 continue
             d = Driver(h, rng, wd, recs)
             d.pristine()
